@@ -181,6 +181,7 @@ def install(eng):
     eng.fn("Needs")(lambda e, st, s: V(T.BOOL, needs(e.coerce(s, S).z)))
     eng.spec_consts["NoTargets"] = V(TS, TS.empty())
     eng.spec_consts["NoPaths"] = V(PS, PS.empty())
+    eng.spec_consts["NoNames"] = V(T.SetT(vc.Name), T.SetT(vc.Name).empty())
 
     u, d = vc.Target.fresh("u"), vc.Target.fresh("d")
     # Spec (DESIGN 3), from the statements of C01/C02: the backend's live/failed/cancelled answer wins,
@@ -313,3 +314,90 @@ def install(eng):
     eng.rules[os.path.abspath] = rule1(vc.f_abspath, 1)
     eng.rules[os.path.normpath] = rule1(vc.f_normpath, 1)
     eng.rules[os.fspath] = lambda e, args, kw, st, sink, n: iter([(st, args[0])])   # str -> itself
+
+    # ================================================================== files on disk (ghost) and json
+    import builtins
+    import json as _json
+    from pyvc.core import Exc, Unsupported
+    PS_ = T.SetT(vc.Path)
+    eng.ghost("disk_exists", PS_)     # paths of the state files that exist
+    eng.ghost("disk_valid", PS_)      # ... and hold a complete JSON document
+    vc.disk_maps = {}
+
+    def disk_map(name, ty):
+        eng.ghost(name, T.MapT(vc.Path, ty))
+        vc.disk_maps[ty.name] = name
+
+    vc.disk_map = disk_map
+    disk_map("disk_hashes", HD)
+    disk_map("disk_tracked", TJ)
+    eng.cls("File", consts={"path": vc.Path})
+    vc.File = T.ObjT("File")
+    f_fpath = eng.const_fn("File", "path", vc.Path)
+    eng.contract("iface:File.__enter__", self_type=vc.File, params={"self": vc.File}, returns=vc.File,
+                 returns_expr="self", trusted=True, pure=True)
+    eng.contract("iface:File.__exit__", self_type=vc.File, params={"self": vc.File}, trusted=True, pure=True,
+                 note="closing the file; write errors at close are out of scope")
+
+    def r_open(e, args, kw, st, sink, n):
+        path = e.coerce(args[0], vc.Path, n)
+        mode = args[1] if len(args) > 1 else kw.get("mode")
+        if mode is None:
+            m = "r"
+        elif mode.ty is T.PY:
+            m = mode.z
+        elif z3.is_string_value(mode.z):
+            m = mode.z.as_string()
+        else:
+            raise Unsupported("open() with symbolic mode", n)
+        ex, va = st.ghost["disk_exists"], st.ghost["disk_valid"]
+        f, st = e.fresh(vc.File, "file", st)
+        st = st.assume(f_fpath(f.z) == path.z)
+        if "w" in m:
+            # truncating open: the file exists and is (for now) not a complete document (C09)
+            st = st.set_ghost("disk_exists", V(PS_, z3.Store(ex.z, path.z, True)))
+            st = st.set_ghost("disk_valid", V(PS_, z3.Store(va.z, path.z, False)))
+            yield st, f
+        else:
+            missing = z3.Not(z3.Select(ex.z, path.z))
+            if e.feasible(st, missing):
+                sink.append((st.assume(missing), Exc(FileNotFoundError)))
+            yield st.assume(z3.Select(ex.z, path.z)), f
+
+    eng.rules[builtins.open] = r_open
+
+    def r_json_load(e, args, kw, st, sink, n):
+        f = args[0]
+        want = st.meta.get("want") or (e.current.returns if e.current is not None else None)
+        if want is None or want.name not in vc.disk_maps:
+            raise Unsupported("json.load: no ghost disk map for the expected type", n)
+        path = f_fpath(f.z)
+        bad = z3.Not(z3.Select(st.ghost["disk_valid"].z, path))
+        if e.feasible(st, bad):
+            sink.append((st.assume(bad), Exc(_json.JSONDecodeError)))
+        m = st.ghost[vc.disk_maps[want.name]]
+        yield st.assume(z3.Not(bad)), V(want, z3.Select(m.z, path))
+
+    def r_json_dump(e, args, kw, st, sink, n):
+        obj, f = args[0], args[1]
+        nm = vc.disk_maps.get(obj.ty.name)
+        if nm is None and isinstance(obj.ty, T.DictT):
+            for tn, gn in vc.disk_maps.items():
+                mt = eng.ghost_decl[gn].val
+                if isinstance(mt, T.DictT) and mt.key == obj.ty.key and mt.val == obj.ty.val:
+                    nm = gn
+        if nm is None:
+            raise Unsupported(f"json.dump of {obj.ty}: no ghost disk map", n)
+        path = f_fpath(f.z)
+        m = st.ghost[nm]
+        st = st.set_ghost(nm, V(m.ty, z3.Store(m.z, path, obj.z)))
+        va = st.ghost["disk_valid"]
+        yield st.set_ghost("disk_valid", V(PS_, z3.Store(va.z, path, True))), e.lift(None)
+
+    eng.rules[_json.load] = r_json_load
+    eng.rules[_json.dump] = r_json_dump
+    eng.str_hooks["Path"] = lambda e, v: v     # str(path-like) is the path text
+
+    import gwf.backends.exceptions as _bex
+    for _n in ("BackendError", "TargetError", "UnsupportedOperationError"):
+        eng.exc_names[_n] = getattr(_bex, _n)
